@@ -312,6 +312,7 @@ type hintMgr struct {
 	maxDumpedHintID HintID
 
 	dumpLock           sync.Mutex
+	trydumpLock        sync.Mutex // serialises trydump: dump() drops the chunk lock while it writes
 	mergeLock          sync.Mutex
 	maxDumpableChunkID int
 	merged             *hintFileIndex
@@ -369,6 +370,8 @@ func (h *hintMgr) dump(chunkID, splitID int) (err error) {
 }
 
 func (h *hintMgr) trydump(chunkID int, dumplast bool) (silence int64) {
+	h.trydumpLock.Lock()
+	defer h.trydumpLock.Unlock()
 	ck := h.chunks[chunkID]
 	ck.Lock()
 	defer ck.Unlock()
